@@ -10,6 +10,8 @@
 package main
 
 import (
+	"strconv"
+	"regexp"
 	"github.com/ogen-go/ogen/gen/ir"
 	"encoding/json"
 	"fmt"
@@ -796,6 +798,67 @@ func bases() []baseDoc {
 	return out
 }
 
+var posInText = regexp.MustCompile(`([A-Za-z0-9_./-]+\.json):(\d+):(\d+)`)
+
+var rootPos = regexp.MustCompile(`\bat (\d+):(\d+):`)
+
+// misplaced checks the positions a diagnostic carries against the documents as they were served.
+func misplaced(d doc, errText string) string {
+	var ms [][]string
+	ms = append(ms, posInText.FindAllStringSubmatch(errText, -1)...)
+	// a position without a file name lies in the root document
+	for _, m := range rootPos.FindAllStringSubmatch(errText, -1) {
+		ms = append(ms, []string{m[0], d.Root, m[1], m[2]})
+	}
+	for _, m := range ms {
+		name := strings.TrimPrefix(m[1], "/")
+		for strings.HasPrefix(name, "/") {
+			name = name[1:]
+		}
+		f, ok := d.Files[name]
+		if !ok {
+			return fmt.Sprintf("position in %q, which is not a file of the document", m[1])
+		}
+		text, _ := json.Marshal(f)
+		line, _ := strconv.Atoi(m[2])
+		col, _ := strconv.Atoi(m[3])
+		if line != 1 || col < 1 || col > len(text) {
+			return fmt.Sprintf("%s:%d:%d lies outside %s (1 line, %d bytes)", m[1], line, col, name, len(text))
+		}
+		lo, hi := col-1-10, col-1+10
+		if lo < 0 {
+			lo = 0
+		}
+		if hi > len(text) {
+			hi = len(text)
+		}
+		if !strings.Contains(string(text[lo:hi]), "$ref") && !strings.Contains(string(text[lo:hi]), `":"`) && !strings.Contains(string(text[lo:hi]), `":{`) {
+			return fmt.Sprintf("%s:%d:%d is not on a reference: ...%s...", m[1], line, col, text[lo:hi])
+		}
+		// the column must be that of a "$ref" key or of its value in this file
+		on := false
+		for i := 0; i+6 <= len(text); i++ {
+			if string(text[i:i+6]) == `"$ref"` {
+				end := i + 7 + strings.IndexByte(string(text[i+8:]), '"') + 2
+				// key start, value start, or the object holding the reference
+				if col-1 == i || col-1 == i+7 || col-1 == i-1 || (col-1 > i && col-1 <= end) {
+					on = true
+				}
+			}
+		}
+		// the generator blames the composition keyword the recursion passes through
+		for _, kw := range []string{`"allOf"`, `"oneOf"`, `"anyOf"`} {
+			if strings.HasPrefix(string(text[col-1:]), kw) || strings.HasPrefix(string(text[col-1:]), "{"+kw) {
+				on = true
+			}
+		}
+		if !on {
+			return fmt.Sprintf("%s:%d:%d is not on a reference of that file", m[1], line, col)
+		}
+	}
+	return ""
+}
+
 type cycleCase struct {
 	Name string
 	Doc  doc
@@ -846,7 +909,20 @@ func cycles(thorough bool) []cycleCase {
 		cycleCase{"parameter cycle across two files", doc{Root: "root.json", Files: map[string]M{
 			"root.json": head(M{"/a": M{"get": op("a", M{"parameters": []any{R("f1.json#/P")}})}}),
 			"f1.json":   {"P": R("f2.json#/Q")},
-			"f2.json":   {"Q": R("f1.json#/P")}}}, ir},
+			"f2.json":   {"A0pad": "0123456789012345678901234", "Q": R("f1.json#/P")}}}, ir},
+		cycleCase{"parameter cycle root -> external -> root", doc{Root: "root.json", Files: map[string]M{
+			"root.json": M{"openapi": "3.0.3", "info": M{"title": "t", "version": "1"}, "paths": M{"/a": M{"get": op("a", M{"parameters": []any{R("#/components/parameters/P")}})}}, "components": M{"parameters": M{"P": R("ext.json#/Q")}}},
+			"ext.json":  {"A0pad": "0123456789012345678901234567890123456789", "Q": R("root.json#/components/parameters/P")}}}, ir},
+		cycleCase{"header cycle root -> external -> root", doc{Root: "root.json", Files: map[string]M{
+			"root.json": M{"openapi": "3.0.3", "info": M{"title": "t", "version": "1"}, "paths": M{"/a": M{"get": M{"operationId": "a", "responses": M{"200": M{"description": "ok", "headers": M{"X-H": R("#/components/headers/H")}}}}}}, "components": M{"headers": M{"H": R("ext.json#/G")}}},
+			"ext.json":  {"A0pad": "0123456789012345678901234567890123456789012345678901234567890123456789", "G": R("root.json#/components/headers/H")}}}, ir},
+		cycleCase{"response cycle external -> external (second file closes it)", doc{Root: "root.json", Files: map[string]M{
+			"root.json": head(M{"/a": M{"get": M{"operationId": "a", "responses": M{"200": R("f1.json#/R")}}}}),
+			"f1.json":   {"R": R("f2.json#/S")},
+			"f2.json":   {"A0pad": "01234567890123456789012345678901234567890123456789", "A1more": "0123456789", "S": R("f1.json#/R")}}}, ir},
+		cycleCase{"required schema cycle root -> external -> root", doc{Root: "root.json", Files: map[string]M{
+			"root.json": M{"openapi": "3.0.3", "info": M{"title": "t", "version": "1"}, "paths": M{"/a": M{"post": op("a", M{"requestBody": jb(R("#/components/schemas/A"))})}}, "components": M{"schemas": M{"A": M{"allOf": []any{R("ext.json#/B")}}}}},
+			"ext.json":  {"A0pad": "012345678901234567890123456789", "B": M{"allOf": []any{R("root.json#/components/schemas/A")}}}}}, "error:"},
 		cycleCase{"missing external file", doc{Root: "root.json", Files: map[string]M{
 			"root.json": head(M{"/a": M{"get": op("a", M{"parameters": []any{R("nope.json#/P")}})}})}}, "error:"},
 	)
@@ -1078,6 +1154,13 @@ func main() {
 		case c.Want == "error:infinite recursion" && !strings.Contains(errText, ".json:") && !strings.Contains(errText, "at "):
 			attrs["class"] = "infinite-recursion-error-without-position/" + c.Name
 			k.Detail = trunc(errText, 400)
+				case outcome == "error" && len(c.Doc.Files) > 1:
+			// located: every file:line:column of the diagnostic lies in that file, on a reference
+			// (files are served as compact JSON: line 1, column = byte offset + 1)
+			if bad := misplaced(c.Doc, errText); bad != "" {
+				attrs["class"] = "cycle-error-located-outside-a-reference/" + c.Name
+				k.Detail = bad + " | " + trunc(errText, 400)
+			}
 		}
 		if attrs["class"] != "" {
 			r.Violation(attrs, len(c.Name), k)
